@@ -60,6 +60,8 @@ package isobmff
 //@   ensures r1 == nil ==> r0 == n
 //@   ensures [C11] r0 > 0 ==> old(b.remain) >= n
 //@   ensures [C11] b.remain == ite(old(b.remain) >= n, old(b.remain) - n, old(b.remain))
+//@   ensures [C11] r0 > 0 && b.outer != nil ==> old(b.outer.remain) >= n && b.outer.remain == old(b.outer.remain) - n
+//@   ensures [C11] r0 > 0 && b.outer != nil && b.outer.outer != nil ==> old(b.outer.outer.remain) >= n && b.outer.outer.remain == old(b.outer.outer.remain) - n
 //@   ensures wf4(b)
 
 //@ func (*box).close
